@@ -6,8 +6,10 @@ package ref
 
 // C15 "replacing the tag or digest leaves every other component unchanged"; the printed form is
 // refreshed from the new components.
+// (C14 too: the once-per-digest gate of the image copy keys its table by refTgt.SetTag("").CommonName(),
+// i.e. relies on SetTag clearing the digest as well)
 //@ func (Ref).SetTag(tag) (out)
-//@   prop C15
+//@   prop C15, C14
 //@   inline CommonName
 //@   ensures sets-tag: out.Tag == tag && out.Digest == ""
 //@   ensures frame: out.Scheme == r.Scheme && out.Registry == r.Registry && out.Repository == r.Repository && out.Path == r.Path
